@@ -22,6 +22,10 @@ pub struct Case {
     pub root_h: Option<String>,
     pub root_vb: Option<String>,
     pub root_version: bool,
+    /// how border / scale reach the transform: 0 API configuration; 1 one <config> element; 2 API + an unrelated <config>;
+    /// 3 two <config> elements (one setting each); 4 <config> overriding different API values
+    #[serde(default)]
+    pub via: u8,
 }
 
 #[derive(Clone, Debug)]
@@ -207,8 +211,8 @@ fn unit_val(v: f64, u: u8) -> String {
 }
 
 fn fam_docs(_t: Tier) -> BoxedStrategy<Case> {
-    (vec(pk(), 1..12), 0u16..41, prop_oneof![Just(1.0f32), Just(0.5), Just(1.5), Just(2.5), Just(10.0)], 0u8..8, any::<u8>(), gen::nice_pos(300), gen::nice_pos(200), any::<bool>(), any::<bool>())
-        .prop_map(|(picks, border, scale, subset, unit, rw, rh, version, empty)| {
+    (vec(pk(), 1..12), 0u16..41, prop_oneof![Just(1.0f32), Just(0.5), Just(1.5), Just(2.5), Just(10.0)], 0u8..8, any::<u8>(), gen::nice_pos(300), gen::nice_pos(200), any::<bool>(), any::<bool>(), 0u8..8)
+        .prop_map(|(picks, border, scale, subset, unit, rw, rh, version, empty, via)| {
             let mut b = B { next_id: 0, boxes: vec![], defs: vec![], clip_ids: vec![], use_targets: vec![], later: vec![] };
             // declare clip paths and use targets first so they can be used by the elements
             let (mut pre, rest): (Vec<P>, Vec<P>) = picks.into_iter().partition(|p| p.kind == 18 || (p.kind == 16 && p.f % 3 == 0));
@@ -232,6 +236,17 @@ fn fam_docs(_t: Tier) -> BoxedStrategy<Case> {
             if let Some(v) = &root_vb {
                 root.set("viewBox", v.clone());
             }
+            let via = if via >= 5 { 0 } else { via };
+            let sc = format!("{scale}");
+            match via {
+                1 | 4 => root.kids.push(X::El(XEl::new("config").a("border", border.to_string()).a("scale", sc.clone()))),
+                2 => root.kids.push(X::El(XEl::new("config").a(["add-auto-styles", "seed", "font-size", "theme"][(unit % 4) as usize], ["false", "7", "4", "dark"][(unit % 4) as usize]))),
+                3 => {
+                    root.kids.push(X::El(XEl::new("config").a("border", border.to_string())));
+                    root.kids.push(X::El(XEl::new("config").a("scale", sc.clone())));
+                }
+                _ => {}
+            }
             if !b.defs.is_empty() {
                 let mut d = XEl::new("defs");
                 d.kids = std::mem::take(&mut b.defs).into_iter().map(X::El).collect();
@@ -244,7 +259,7 @@ fn fam_docs(_t: Tier) -> BoxedStrategy<Case> {
                 // width/height is sized like a nested <svg> element; that corner is not part of the statement)
                 root.kids.push(X::Raw("\n".into()));
             }
-            Case { doc: root.to_xml(), boxes: b.boxes, border, scale, root_w, root_h, root_vb, root_version: version }
+            Case { doc: root.to_xml(), boxes: b.boxes, border, scale, root_w, root_h, root_vb, root_version: version, via }
         })
         .boxed()
 }
@@ -447,7 +462,11 @@ impl Property for C08 {
         vec![Family::random("documents", tier.n(40_000, 250_000), fam_docs)]
     }
     fn judge(&self, case: &Case, _strict: bool) -> Verdict {
-        let cfg = Cfg { border: case.border, scale: case.scale, add_auto_styles: false, ..Cfg::default() };
+        let cfg = match case.via {
+            1 | 3 => Cfg { add_auto_styles: false, ..Cfg::default() },
+            4 => Cfg { border: case.border / 2 + 1, scale: 3.0, add_auto_styles: false, ..Cfg::default() },
+            _ => Cfg { border: case.border, scale: case.scale, add_auto_styles: false, ..Cfg::default() },
+        };
         let out = match transform(&case.doc, &cfg) {
             Outcome::Ok(o) => o,
             Outcome::Err(k, m) => return Verdict::fail(format!("c08:transform-failed:{k}"), format!("{}\n--- document ---\n{}", crate::run::trunc(&m, 1500), case.doc), vec![], 1),
